@@ -388,7 +388,7 @@ def gen(rng, force=None):
     for i in range(n_si):
         native = rng.random() < 0.12
         spec = native_spec() if native else plutus_spec()
-        raw = (not native) and spec.startswith("p1:") and rng.random() < 0.15
+        raw = (not native) and spec.startswith("p1:") and rng.random() < 0.35
         loc = rng.choice(["witness", "witness", "ref", "ref", "own", "addr"])
         if raw and loc != "witness":
             raw = False
@@ -481,7 +481,7 @@ def gen(rng, force=None):
         else:
             continue
         mint_specs.append(spec)
-        raw = (not native) and spec.startswith("p1:") and rng.random() < 0.15
+        raw = (not native) and spec.startswith("p1:") and rng.random() < 0.35
         loc = "witness" if (raw or rng.random() < 0.6) else "ref"
         o = {"op": "x_minting_script", "script": spec}
         if raw:
